@@ -892,6 +892,8 @@ class Evaluator:
         if isinstance(op, ast.Div):
             if y.is_zero():
                 return Raised('ZeroDivisionError')
+            if not y.is_const():
+                self.__dict__.setdefault('divisors', []).append(y)      # partiality: the value exists only where y != 0
             return Scalar(x / y)
         if isinstance(op, ast.Pow):
             return Scalar(x ** y)
